@@ -197,9 +197,14 @@ def run(case, snap=False, renders=False, iter_budget=12, text=None, bound=True, 
     if decode:
         o.actions = [decode_action(A) for A in rec['actions']]
     if o.stage == 'done':
-        o.elected = sorted(c.cid for c in E.elected)
-        o.defeated = sorted(c.cid for c in E.defeated)
-        o.withdrawn = sorted(c.cid for c in E.withdrawn)
+        try:
+            o.elected = sorted(c.cid for c in E.elected)
+            o.defeated = sorted(c.cid for c in E.defeated)
+            o.withdrawn = sorted(c.cid for c in E.withdrawn)
+        except Exception as exc:     # pylint: disable=broad-except
+            o.exc = exc                 # the election object does not report its winners/losers/withdrawn properly
+            o.stage = 'attributes'
+            return o
         if renders:
             try:
                 o.report = E.report()
